@@ -57,7 +57,7 @@ CLAIMS = {
           "0 <= RandomBits(n) < 2^n is discharged for all n >= 1 and all seeds for the 13 generator bodies (bytes/bit-length theory), TruncLcgRand restricted to n % 8 == 0 with the complementary obligation listed as known finding F6; registry, determinism, java.util.Random and truncated-LCG streams: bounded.",
           NOTE, "DESIGN.md 4/C20"),
   "C18": ("proof", TECH,
-          "Implicit-exception obligations (ZeroDivisionError, IndexError, KeyError, TypeError on None, ValueError of isqrt/shift/to_bytes, invert of non-unit) and 'no unexpected raise' are discharged for every function under a total contract (61 functions: every check method except CheckIssuerKey, and every helper they call that is under contract), under the property's well-formedness precondition (moduli >= 2^63). Left open and listed: BatchInverse's internal self-check (ArithmeticError) and Multiply's degenerate-tangent ValueError, which is proved impossible for on-curve points but does occur off the curve (secp256r1, (1, p), n = 2) - CheckWeakECPrivateKey searches unvalidated keys, so that path is decided by the bounded tier only.",
+          "Implicit-exception obligations (ZeroDivisionError, IndexError, KeyError, TypeError on None, ValueError of isqrt/shift/to_bytes, invert of non-unit) and 'no unexpected raise' are discharged for every function under a total contract (every check method except CheckIssuerKey) and, through the dependency closure, for every helper under contract that they reach (85 functions in all), under the property's well-formedness precondition (moduli >= 2^63). Left open and listed: BatchInverse's internal self-check (ArithmeticError) and Multiply's degenerate-tangent ValueError, which is proved impossible for on-curve points but does occur off the curve (secp256r1, (1, p), n = 2) - CheckWeakECPrivateKey searches unvalidated keys, so that path is decided by the bounded tier only.",
           NOTE + " Termination is not claimed except where a variant is listed.", "DESIGN.md 4/C18"),
   "C19": ("proof", TECH,
           "Inverse2exp, InverseSqrt2exp, Sqrt2exp (Hensel lifting with explicit witnesses), ContinuedFraction (matrix invariant, convergent recurrence, last convergent equals the fraction) and DivmodRounded are proved for all inputs.",
